@@ -34,6 +34,8 @@ type envTarEntry struct {
 	Mode     int64
 	Mtime    int64
 	Body     string
+	Atime    int64 // access time recorded in the header (PAX/GNU), 0 = none
+	Size     int64 // output only: the size recorded in the entry's header
 }
 
 var envBaseLog int
@@ -172,6 +174,9 @@ func envTarReader(entries []envTarEntry, truncated bool) io.Reader {
 		h.hdr.Mode = e.Mode
 		h.hdr.Size = int64(len(e.Body))
 		h.hdr.ModTime = envTime(e.Mtime)
+		if e.Atime != 0 {
+			h.hdr.AccessTime = envTime(e.Atime)
+		}
 		tIn = append(tIn, h)
 	}
 	tInPos = 0
@@ -197,7 +202,7 @@ func envTarWrittenBy(i int) []envTarEntry {
 			continue
 		}
 		out = append(out, envTarEntry{Name: e.hdr.Name, Linkname: e.hdr.Linkname, Typeflag: e.hdr.Typeflag, Mode: e.hdr.Mode,
-			Mtime: e.hdr.ModTime.Unix(), Body: e.body})
+			Mtime: e.hdr.ModTime.Unix(), Body: e.body, Size: e.hdr.Size})
 	}
 	return out
 }
